@@ -27,15 +27,20 @@ EXTENDS RingMerge, Json
 CONSTANTS TsSet, LiveSt,
           MaxUpd,     \* a delivered update mentions at most MaxUpd instances
           Clock0, MaxClock,   \* the replica's clock runs Clock0..MaxClock
-          ThinK, ThinR \* of the transitions that resolve a collision, those numbered ThinR modulo ThinK are
+          CasRaw,     \* TRUE: a local CAS may write any entry of the universe; FALSE: only normalised entries stamped `clock`
+          ThinK, ThinR, \* of the transitions that resolve a collision, those numbered ThinR modulo ThinK are
                       \* emitted as behaviours for the harness as well (ThinK = 0: none)
+          ThinA       \* and of ALL transitions those numbered ThinR modulo ThinA (0: none)
 
 VARIABLES d,       \* the replica's descriptor (tombstones included)
           clock,   \* its clock (seconds)
           last,    \* the step that produced d: [act, other, cas, now] and what Merge did
                    \* before resolution: [pre, resolved]                  (not in the VIEW)
-          hist     \* how d was reached from the empty descriptor        (not in the VIEW)
-vars == <<d, clock, last, hist>>
+          hist,    \* how d was reached from the empty descriptor        (not in the VIEW)
+          handed   \* the snapshots handed out to readers so far, oldest first (not in the VIEW):
+                   \* after every write the store gives its watchers Clone() of the value with the
+                   \* tombstones stripped (kv/memberlist KV.get); a ring client keeps the last one
+vars == <<d, clock, last, hist, handed>>
 View == <<d, clock>>
 
 Updates == {u \in DescsOf(TsSet, LiveSt, TRUE) : NumPresent(u) >= 1 /\ NumPresent(u) <= MaxUpd}
@@ -51,13 +56,15 @@ Step(act, o, cs) ==
     /\ last' = [act |-> act, other |-> o, cas |-> cs, now |-> clock, pre |-> m.pre, resolved |-> m.resolved]
     /\ hist' = Append(hist, [act |-> act, other |-> JDesc(o), cas |-> cs, now |-> clock,
                              post |-> JDesc(m.result), nil |-> m.change.nil, change |-> JDesc(m.change.d),
-                             resolved |-> m.resolved])
+                             resolved |-> m.resolved, owner |-> [p \in 1..M |-> Owner(m.result, p - 1)]])
+    /\ handed' = Append(handed, Logical(m.result))
     /\ UNCHANGED clock
 
 Deliver(o) == Step("Deliver", o, FALSE)
 
 \* a local CAS whose function rewrites (or drops: e = Absent) entry i of the visible content
 LocalCAS(i, e) == Step("LocalCAS", [Logical(d) EXCEPT ![i] = e], TRUE)
+CasEntries(i) == IF CasRaw THEN RawEntries(i) ELSE EntriesOf(i, {clock}, LiveSt, FALSE)
 
 \* the owner i finds some of its tokens gone and claims free positions instead, stamped now
 VerifyTokens(i, S) ==
@@ -69,16 +76,18 @@ Tick == /\ clock < MaxClock
         /\ clock' = clock + 1
         /\ last' = [act |-> "Tick", other |-> Empty, cas |-> FALSE, now |-> clock + 1, pre |-> d, resolved |-> FALSE]
         /\ hist' = Append(hist, [act |-> "Tick", other |-> JDesc(Empty), cas |-> FALSE, now |-> clock + 1,
-                                 post |-> JDesc(d), nil |-> TRUE, change |-> JDesc(Empty), resolved |-> FALSE])
-        /\ UNCHANGED d
+                                 post |-> JDesc(d), nil |-> TRUE, change |-> JDesc(Empty), resolved |-> FALSE,
+                                 owner |-> [p \in 1..M |-> Owner(d, p - 1)]])
+        /\ UNCHANGED <<d, handed>>
 
 Init == /\ d = Empty
         /\ clock = Clock0
         /\ last = [act |-> "Init", other |-> Empty, cas |-> FALSE, now |-> Clock0, pre |-> Empty, resolved |-> FALSE]
         /\ hist = <<>>
+        /\ handed = <<>>
 
 Next == \/ \E o \in Updates : Deliver(o)
-        \/ \E i \in Inst : \E e \in RawEntries(i) : LocalCAS(i, e)
+        \/ \E i \in Inst : \E e \in CasEntries(i) : LocalCAS(i, e)
         \/ \E i \in Inst : \E S \in SUBSET Pos : VerifyTokens(i, S)
         \/ Tick
 
@@ -113,6 +122,25 @@ StepRule ==
         /\ \A p \in Pos : Claimants(d', p) \subseteq Claimants(last'.pre, p)     \* nobody gains a token by resolution
 StepRules == [][StepRule]_vars
 
+(* The Mergeable contract made explicit ("Clone returns a deep copy"; the    *)
+(* store merges in place and hands Clone()s to its readers): a snapshot      *)
+(* that was handed out is a value - no later step changes it - and the last  *)
+(* one is exactly the visible content of the replica, so a long-lived reader *)
+(* that is notified after every write answers like a reader built afresh     *)
+(* from the current value.  In TLA+ values cannot change, so these hold by    *)
+(* construction; they are stated (and checked on every transition) because   *)
+(* they are what harness/c05 checks on the real objects: every clone handed  *)
+(* out earlier is deep-compared with the copy taken at hand-out time after   *)
+(* every real Merge, and a long-lived ring.Ring fed those clones is compared *)
+(* with a fresh one after every step.                                        *)
+SnapshotsImmutable ==
+    [][/\ Len(handed') >= Len(handed)
+       /\ \A k \in DOMAIN handed : handed'[k] = handed[k]]_vars
+ReaderSeesLatest ==
+    [][last'.act \in {"Deliver", "LocalCAS", "VerifyTokens"} =>
+          /\ Len(handed') = Len(handed) + 1
+          /\ handed'[Len(handed')] = Logical(d')]_vars
+
 (* The named deviation: a step that resolves a collision changes the token  *)
 (* list of an entry whose (id, ts) stays what it was - the reason C03       *)
 (* excludes shared tokens from its convergence claim.                       *)
@@ -123,9 +151,12 @@ NeverResolveWithoutTimestamp == [][~ResolveWithoutTimestamp]_vars   \* expected 
 
 (* One line per distinct reachable <<d, clock>>: the BFS path that reached  *)
 (* it, with the descriptor the specification demands after every step       *)
-(* (EmitPath), plus a thinned sample of the transitions that resolve a      *)
-(* collision, each with the path to its source state (EmitResolving).       *)
-Thin == ThinK > 0 /\ last'.resolved /\ (Rank(d) + 3 * Rank(last'.other) + clock) % ThinK = ThinR
+(* (EmitPath), plus a thinned sample of all transitions and a denser one of  *)
+(* the transitions that resolve a collision, each with the path to its       *)
+(* source state (EmitResolving).                                             *)
+StepNo == Rank(d) + 3 * Rank(last'.other) + clock + (IF last'.cas THEN 5 ELSE 0)
+Thin == \/ ThinK > 0 /\ last'.resolved /\ StepNo % ThinK = ThinR % ThinK
+        \/ ThinA > 0 /\ last'.act # "Tick" /\ StepNo % ThinA = ThinR % ThinA
 EmitResolving ==
     [][Thin => PrintT(ToJson([kind |-> "path", steps |-> hist',
                               owner |-> [p \in 1..M |-> Owner(d', p - 1)]]))]_vars
